@@ -574,7 +574,10 @@ def main(argv=None):
   if crash:
     for c_ in crash:
       print("checker error:", c_[:2000])
-    return 3
+    if not violations:
+      return 3
+    # a violation with its replay file stands on its own: it is reported even though another part of the check crashed
+    # (typically the changed library raising inside a bounded check that does not expect exceptions)
   if violations:
     for path, reproduced, label in violations:
       tail = "" if reproduced else " no-failing-input-found"
